@@ -14,6 +14,7 @@ import time
 import traceback
 
 import hypothesis
+from . import elements as _elements
 from hypothesis import HealthCheck, Phase, given, seed, settings
 
 VERIF = os.path.dirname(os.path.dirname(os.path.abspath(__file__)))
@@ -53,7 +54,7 @@ class Part:
         self.cpu_limit = cpu_limit    # seconds of CPU one case may use (None: unlimited), see guarded()
 
 
-CATALOGUE = {"inc", "dbl", "neg", "pair", "tsum", "size", "wrap", "add2", "cnt", "is_even", "lt3",
+CATALOGUE = {"inc", "dbl", "neg", "pair", "tsum", "size", "wrap", "add2", "cnt", "poly", "_v", "is_even", "lt3",
              "acc_add", "acc_max", "acc_count", "acc_rs", "key_self", "key_mod2", "key_mod3",
              "leafsum", "leaves", "prov", "vcanon"}
 
@@ -224,6 +225,7 @@ def _run_part(pid, part, tier, seed_value, known_sigs, n_examples, want_shrink):
     def run_case(case):
         case = dict(case)
         case["part"] = part.name
+        _elements.set_fault_class("Boom")
         if stats.aborted:
             return case, _SKIPPED
         try:
@@ -518,6 +520,7 @@ def run_property(mod, tier, seed_value, only_part=None):
 
 def replay_case(mod, case):
     part = [p for p in mod.PARTS if p.name == case.get("part", mod.PARTS[0].name)][0]
+    _elements.set_fault_class("Boom")
     return guarded(mod.ID, part, case)
 
 
